@@ -255,6 +255,14 @@ where
     format!("[{}]", out.join(","))
 }
 
+pub fn run_nested_pub<X, O, I>(outer: O, script: &[i128], show: impl FnMut(X) -> String) -> String
+where
+    O: ExactSizeIterator<Item = I> + DoubleEndedIterator,
+    I: ExactSizeIterator<Item = X> + DoubleEndedIterator,
+{
+    run_nested(outer, script, show)
+}
+
 fn run_nested<X, O, I>(mut outer: O, script: &[i128], mut show: impl FnMut(X) -> String) -> String
 where
     O: ExactSizeIterator<Item = I> + DoubleEndedIterator,
